@@ -214,8 +214,9 @@ def clause_c(ctx, fx, U):
         sinks += [e["bb"] for (f, e, inner, l) in U.elem_sinks if f is fn and l is n and e.get("kind") == "push"]
         elem = [e for (f, e, inner, l) in U.elem_sinks if f is fn and l is n and e.get("kind") != "push"]
         heads = set(h for (_, h) in cfg.back_edges(fn))
+        nofound = U.lookup_failure(fn, n)
         if sinks:
-            r = cfg.reachable(fn, starts, removed_blocks=sinks)
+            r = cfg.reachable(fn, starts, removed_blocks=sinks, removed_edges=nofound)
             oks = [e["bb"] for e in cfg.exit_sites(fn) if e["kind"] == "Ok"]
             if any(h in r for h in heads) or any(o in r for o in oks):
                 ctx.finding("C01.c", fn, "member-dropped", "after a digest matched a disclosure, the loop can continue or return Ok without inserting the disclosed member", line=line)
@@ -223,7 +224,7 @@ def clause_c(ctx, fx, U):
                 ctx.ok("C01.c", fn, "member-kept", "on the found edge every path to the next iteration / Ok passes the insert (or is an Err)", line=line)
         elif elem:
             # no Ok(None) reachable from the found edge
-            r = cfg.reachable(fn, starts)
+            r = cfg.reachable(fn, starts, removed_edges=nofound)
             bad = []
             for e in cfg.exit_sites(fn):
                 if e["kind"] == "Ok" and "rv" in e and e["bb"] in r:
